@@ -978,3 +978,70 @@ func Harness_C17_no_exec_on_decrypt() {
 		V.Assert(len(V.Execs()) == 0, "Decrypt with native identities started a program")
 	}
 }
+
+// ---------------------------------------------------------------------------
+// C14: hostile stanzas handed to the native identities
+
+// hostileStanza builds a stanza with 0..3 arguments of lengths taken from the
+// interesting set {0, 1, 2, 22, 43, 44} (arbitrary printable characters) and a
+// body of length {0, 15, 16, 31, 32, 33} (arbitrary bytes).
+func hostileStanza(typ string) *Stanza {
+	lens := []int{0, 1, 2, 22, 43, 44}
+	blens := []int{0, 15, 16, 31, 32, 33}
+	st := &Stanza{Type: typ}
+	nargs := V.Int("nargs", 0, 3)
+	for k := 0; k < nargs; k++ {
+		id := string(rune('0' + k))
+		n := 1
+		switch k {
+		case 0:
+			n = lens[V.Int("alen"+id, 0, len(lens)-1)]
+		case 1:
+			n = V.Int("alen"+id, 0, 2)
+		}
+		a := V.Bytes("arg"+id, n)
+		// base64 alphabet everywhere except one position (first, middle or
+		// last), where any printable character may stand
+		wild := -1
+		if n > 0 {
+			wild = []int{0, n / 2, n - 1}[V.Int("wild"+id, 0, 2)]
+		}
+		for j, c := range a {
+			if j == wild {
+				V.Assume(printableNoSpace[c])
+			} else {
+				V.Assume(b64Alphabet[c])
+			}
+		}
+		st.Args = append(st.Args, string(a))
+	}
+	st.Body = V.Bytes("body", blens[V.Int("blen", 0, len(blens)-1)])
+	return st
+}
+
+// Harness_C14_unwrap_native: X25519 and passphrase identities on arbitrary
+// stanzas of their own type: a value or an error comes back, never a panic
+// (every bounds / nil / type-assertion check of the interpreted code is an
+// assertion), never both a key and an error, and the passphrase identity never
+// derives a key with more work than its maximum allows.
+func Harness_C14_unwrap_native() {
+	var id Identity
+	typ := "X25519"
+	max := 0
+	if V.Bool("scrypt") {
+		typ = "scrypt"
+		max = V.Int("max", 1, 3)
+		id = &ScryptIdentity{password: V.Bytes("pw", 2), maxWorkFactor: max}
+	} else {
+		id = symIdentity("sk")
+	}
+	st := hostileStanza(typ)
+	fk, err := id.Unwrap([]*Stanza{st})
+	V.Reach("returned")
+	V.Assert((fk == nil) != (err == nil), "Unwrap returned both or neither of a file key and an error")
+	if V.Symbolic() && max > 0 {
+		for _, n := range V.ScryptWork() {
+			V.Assert(n <= 1<<uint(max), "key derivation ran with more work than the configured maximum allows")
+		}
+	}
+}
